@@ -112,5 +112,8 @@ Record SchemOK (c : circuit) (l : layout) : Prop := {
                 forall w w', In w (c_wires c) -> In w' (c_wires c) -> PinOfWire w (a_pin a) -> PinOfWire w' (a_pin b) -> w = w';
   (* every net is routed (drawn), and its polyline starts / ends exactly on the pins its ends name *)
   ok_drawn : forall n, In n (l_nets l) ->
-               (exists a b, n_from n = Some a /\ n_to n = Some b) /\ GeoEnd l (n_src n) (n_from n) /\ GeoEnd l (n_snk n) (n_to n)
+               (exists a b, n_from n = Some a /\ n_to n = Some b) /\ GeoEnd l (n_src n) (n_from n) /\ GeoEnd l (n_snk n) (n_to n);
+  (* the point at which a symbol says a pin is (where the nets are made to end) lies on the marker the symbol PAINTS for that pin *)
+  ok_marks : forall m a, In m (l_marks l) -> In a (l_pins l) -> a_sym a = m_sym m -> a_pin a = m_pin m ->
+               (m_x0 m <= a_x a <= m_x1 m /\ m_y0 m <= a_y a <= m_y1 m)%Z
 }.
